@@ -67,15 +67,31 @@ func (w *W) records(recs [][]string) *W {
 	return w
 }
 
+// csvBytes serialises records the way a person writes a CSV file: a field is quoted only when the reader
+// needs it (it contains a quote, a comma or a line break, or it is the only, empty, field of its record).
+// In particular leading / trailing white space stays UNQUOTED (encoding/csv's Writer would quote it, and a
+// quoted field hides what a reader option such as TrimLeadingSpace does to bare fields).
 func csvBytes(recs [][]string) []byte {
 	var buf bytes.Buffer
-	cw := csv.NewWriter(&buf)
 	for _, r := range recs {
-		_ = cw.Write(r)
+		for i, f := range r {
+			if i > 0 {
+				buf.WriteByte(',')
+			}
+			if strings.ContainsAny(f, "\",\r\n") || (f == "" && len(r) == 1) {
+				buf.WriteByte('"')
+				buf.WriteString(strings.ReplaceAll(f, "\"", "\"\""))
+				buf.WriteByte('"')
+			} else {
+				buf.WriteString(f)
+			}
+		}
+		buf.WriteByte('\n')
 	}
-	cw.Flush()
 	return buf.Bytes()
 }
+
+var _ = csv.NewWriter
 
 // parse with the same library settings the code under test uses; on a CSV error returns what was read so far + false
 func csvParse(b []byte) ([][]string, bool) { return csvParseN(b, 0) }
@@ -98,11 +114,22 @@ func csvParseN(b []byte, fieldsPerRecord int) ([][]string, bool) {
 
 var fancyNames = []string{"alice", "bob", "carol", "dave, jr.", "e\"ve", "0", "1", "007", "-3", "ünï", "x y", "Peer 1", "0x10", "1e3", "NaN"}
 
-func (g *G) peerNames(n int) []string {
-	p := g.r.Perm(len(fancyNames))
+// names with leading / trailing white space: used for the CLI and the library readers only (an HTML page
+// cannot show the difference, so the playground cases keep to the names above)
+var spaceNames = []string{" ek", "\tzed", "\u00a0nb", "trail ", "\u3000wide"}
+
+func (g *G) peerNames(n int) []string { return g.peerNamesFrom(n, fancyNames) }
+
+// peerNamesWS: as peerNames, with white-space-edged names in the pool.
+func (g *G) peerNamesWS(n int) []string {
+	return g.peerNamesFrom(n, append(append([]string{}, fancyNames...), spaceNames...))
+}
+
+func (g *G) peerNamesFrom(n int, pool []string) []string {
+	p := g.r.Perm(len(pool))
 	out := []string{}
 	for i := 0; i < n && i < len(p); i++ {
-		out = append(out, fancyNames[p[i]])
+		out = append(out, pool[p[i]])
 	}
 	for len(out) < n {
 		out = append(out, fmt.Sprintf("p%d", len(out)))
@@ -249,8 +276,22 @@ func runUploads(h *H, prop string, n int) {
 		g.count("pretrusted:" + sub)
 		hunch := strconv.Itoa(g.intn(100) + 1)
 		hp := &hunch
+		sel := g.intn(12)
+		if k%20 == 7 {
+			// slow mixing: a directed ring with one pre-trusted peer at the lowest confidences — the error only
+			// shrinks by (1 - confidence/100) per iteration, so the run needs thousands of iterations
+			dim = g.intn(5) + 8
+			hasNames, nameRecs, ltRecs = false, nil, nil
+			for i := 0; i < dim; i++ {
+				ltRecs = append(ltRecs, []string{strconv.Itoa(i), strconv.Itoa((i + 1) % dim), "1"})
+			}
+			ptRecs = [][]string{{"0"}}
+			hunch = strconv.Itoa(g.intn(2) + 1)
+			sel = 11
+			g.count("slow-mixing-ring")
+		}
 		// malformed uploads
-		switch g.intn(12) {
+		switch sel {
 		case 0:
 			bad := g.pick("hunch-text", "hunch-big", "hunch-neg", "lt-1field", "lt-badlevel", "pt-unknown", "names-dup", "lt-bigger-than-names", "pt-empty-record")
 			g.count("malformed:" + bad)
@@ -369,7 +410,7 @@ func runCliAndReaders(h *H, prop string, n int) {
 		raw := g.intn(5) == 0
 		hdr := g.intn(2) == 0
 		dim := g.intn(5) + 1
-		names := g.peerNames(dim)
+		names := g.peerNamesWS(dim)
 		id := func(i int) string {
 			if raw {
 				return strconv.Itoa(i)
@@ -557,7 +598,7 @@ func runCliAndReaders(h *H, prop string, n int) {
 
 	// ReadPeerNamesFromCsv: duplicate names at every position, empty records
 	for k := 0; k < n; k++ {
-		names := g.peerNames(g.intn(5) + 1)
+		names := g.peerNamesWS(g.intn(5) + 1)
 		var recs [][]string
 		for _, nm := range names {
 			rec := []string{nm}
@@ -602,7 +643,7 @@ func runCliAndReaders(h *H, prop string, n int) {
 	for k := 0; k < n; k++ {
 		dim := g.intn(5) + 1
 		useNames := g.intn(2) == 0
-		names := g.peerNames(dim)
+		names := g.peerNamesWS(dim)
 		id := func(i int) string {
 			if useNames {
 				return names[i]
@@ -707,7 +748,7 @@ func runCliPipeline(h *H, prop string) {
 			alpha = "0.01"
 		} else {
 			dim := g.intn(5) + 2
-			names := g.peerNames(dim)
+			names := g.peerNamesWS(dim)
 			lt = [][]string{{"from", "to", "value"}}
 			for _, c := range g.r.Perm(dim * dim)[:g.intn(dim*dim)+1] {
 				lt = append(lt, []string{names[c/dim], names[c%dim], fmtLevel(g)})
